@@ -56,6 +56,18 @@ theorem c13_source_writers :
       "service/wsp/session.go:Session.process: s.conn.Write(buf.Bytes())"] := by
   decide
 
+/-- The scratch buffers of the WebSocket writers (the frame is composed OUTSIDE `lockW`, only the
+    one `Write` of the finished message is under it) come from a `sync.Pool`; a buffer is private to
+    the goroutine that took it only if it goes back exactly once: in every function of the two
+    session packages each `buffers.Get` is matched by one deferred `buffers.Put` and there is no
+    other `Put` (a second `Put` hands the same buffer to two later users, whose messages then mix). -/
+theorem c13_source_buffers :
+    IpcHub.Gen.poolUses.all (fun u => u.2.1 == u.2.2.1 && u.2.2.2 == 0) = true ∧
+    IpcHub.Gen.poolUses.map (·.1) = ["service/rtsp/session.go:Session.response", "service/rtsp/session_roles.go:tcpConsumer.Consume",
+      "service/wsp/session.go:Session.Consume", "service/wsp/session.go:Session.process",
+      "service/wsp/wsp.go:Server.handshakeControlChannel", "service/wsp/wsp.go:Server.handshakeDataChannel"] := by
+  decide
+
 /-- `wellLocked` on the shapes a harmless refactoring produces and on the shapes it must refuse
     (tests on literals): a deferred unlock with early returns inside the section is well-locked; an
     early return that keeps the lock, a write after the unlock, a flush outside the section and a
